@@ -5,7 +5,7 @@
 EXTENDS Integers, Sequences, TLC, Json
 CONSTANT N
 Scripts == {<<>>, <<>>, <<"fail4">>, <<"fail5">>, <<"fail3">>, <<"fail2">>, <<"fail1">>, <<"reset">>, <<"timeout">>,
-            <<"okslow">>, <<"failslow">>, <<"failslow", "fail4">>, <<"fail5", "fail4">>, <<"reset", "fail2">>, <<"fail4", "okslow">>,
+            <<"okslow">>, <<"failslow">>, <<"failtrunc">>, <<"failtrunc", "fail5">>, <<"failslow", "fail4">>, <<"fail5", "fail4">>, <<"reset", "fail2">>, <<"fail4", "okslow">>,
             <<"fail5", "fail5", "fail3">>}
 VARIABLE sc
 Init == sc = <<>>
